@@ -21,6 +21,7 @@ STD_ENS = 'gram_post(old(p), final(p)) /*@C01.docparser.grammar-keeps-invariant*
 GB = 'broadcast use {lemma_gstep_ext, lemma_gstep_of_drive, lemma_gstep_of_marker, lemma_gstep_frame, lemma_mlive_mono};'
 HIDE = 'hide(dinv); hide(ate); hide(l3::events_ok);'
 HIDE_EV = 'hide(l3::events_ok); broadcast use lemma_evok_push;'
+HIDE_EV0 = 'hide(l3::events_ok);'      # events_ok is an atom in the query (its quantifier is triggered by every event index otherwise)
 B0 = HIDE + '\n' + GB + '\nproof { lemma_anchor(&*p); lemma_gstep_refl(&*p); }'
 GL = GB + '\nproof { lemma_anchor(old(p)); }'          # first statement of every loop body (rule ghost-loop-prelude)
 
@@ -89,22 +90,23 @@ TYPES_SECTION = [
 # ---------------------------------------------------------------------------------------------------------
 DRIVER_EXT = {
     # C02 / H-EV: l3::events_ok (units/c01_green/iface.rs) is preserved by every driver function (EatToken events carry no parent link)
-    'LuaDocParser::init': {'ensures+': EVOK_SELF},
-    'LuaDocParser::calc_next_current_token': {'ensures+': EVOK_SELF, 'loops+': {0: EVOK_INV_SELF, 1: EVOK_INV_SELF, 2: EVOK_INV_SELF, 3: EVOK_INV_SELF}},
-    'LuaDocParser::eat_current_and_lex_next': {'ensures+': EVOK_SELF, 'body_first+': HIDE_EV},
-    'LuaDocParser::set_lexer_state': {'ensures+': EVOK_SELF},
-    'LuaDocParser::re_calc_detail': {'ensures+': EVOK_SELF},
-    'LuaDocParser::re_calc_cast_type': {'ensures+': EVOK_SELF},
-    'LuaDocParser::bump_to_end': {'ensures+': EVOK_SELF},
-    'LuaDocParser::parse': {'ensures+': 'l3::events_ok(old(lua_parser).events@) ==> l3::events_ok(final(lua_parser).events@) /*@C02.doc.events-ok-preserved*/'},
-    'parse_comment': {'ensures+': EVOK},
-    'parse_docs': {'ensures+': EVOK, 'loops+': {0: EVOK_INV_P, 1: EVOK_INV_P}},
-    'parse_description': {'ensures+': EVOK, 'loops+': {0: EVOK_INV_P}},
-    'if_token_bump': {'ensures+': EVOK},
+    'LuaDocParser::init': {'ensures+': EVOK_SELF, 'body_first^': HIDE_EV0},
+    'LuaDocParser::calc_next_current_token': {'ensures+': EVOK_SELF, 'body_first^': HIDE_EV0, 'loops+': {0: EVOK_INV_SELF, 1: EVOK_INV_SELF, 2: EVOK_INV_SELF, 3: EVOK_INV_SELF}},
+    'LuaDocParser::eat_current_and_lex_next': {'ensures+': EVOK_SELF, 'body_first^': HIDE_EV},
+    'LuaDocParser::set_lexer_state': {'ensures+': EVOK_SELF, 'body_first^': HIDE_EV0},
+    'LuaDocParser::re_calc_detail': {'ensures+': EVOK_SELF, 'body_first^': HIDE_EV0},
+    'LuaDocParser::re_calc_cast_type': {'ensures+': EVOK_SELF, 'body_first^': HIDE_EV0},
+    'LuaDocParser::bump_to_end': {'ensures+': EVOK_SELF, 'body_first^': HIDE_EV0},
+    'LuaDocParser::parse': {'ensures+': 'l3::events_ok(old(lua_parser).events@) ==> l3::events_ok(final(lua_parser).events@) /*@C02.doc.events-ok-preserved*/',
+                            'body_first^': HIDE_EV0},
+    'parse_comment': {'ensures+': EVOK, 'body_first^': HIDE_EV0},
+    'parse_docs': {'ensures+': EVOK, 'body_first^': HIDE_EV0, 'loops+': {0: EVOK_INV_P, 1: EVOK_INV_P}},
+    'parse_description': {'ensures+': EVOK, 'body_first^': HIDE_EV0, 'loops+': {0: EVOK_INV_P}},
+    'if_token_bump': {'ensures+': EVOK, 'body_first^': HIDE_EV0},
     # a bump at a real token pushes an event: a node that contains a bumped token is not empty (so `complete` closes it and its
     # CompleteMarker is live)
     'LuaDocParser::bump': {
-        'body_first+': HIDE_EV,
+        'body_first^': HIDE_EV,
         'ensures+': EVOK_SELF + ',\n        real_kind(old(self).current_token) ==> final(self).sp_events().len() > old(self).sp_events().len() /*@C02.doc.bump-pushes-an-event*/'},
     # second strengthening of dinv (quiet_kind): lex_token says where its token comes from; set_current_token_kind may only assign a quiet kind
     # while there is no reader (its two callers assign TkDocConst / TkDocInfer)
